@@ -2,6 +2,7 @@ package main
 
 import (
 	"fmt"
+	"os"
 	"sort"
 	"strconv"
 	"strings"
@@ -464,8 +465,44 @@ func c01exec(c *h.Ctx, cs *h.Case) {
 	cs.Outcome = fmt.Sprintf("msgs=%d reqs=%d/%d flushes=%d/%d", len(ms), e.sent[0], e.sent[1], e.flushN[0], e.flushN[1])
 }
 
-func c01gen(c *h.Ctx, yield func(*h.Case)) {
+// c01search tells whether this run is the widened search of the check (bin/verifcheck.py runs the thorough tier
+// with an output file tagged `_search` after a broken obligation or a model/implementation disagreement). The search
+// has to stay affordable on a loaded machine — two such runs follow a quick run that already takes a minute —
+// so it draws fewer cases than a thorough run proper and stops generating after a wall-clock budget.
+func c01search() bool {
+	for _, a := range os.Args {
+		if strings.HasPrefix(a, "out=") && strings.Contains(a, "_search") {
+			return true
+		}
+	}
+	return false
+}
+
+// c01pick: quick / thorough / thorough-as-search sizes of a generator class.
+func c01pick(c *h.Ctx, q, t, s int) int {
+	if c.Thorough() && c01search() {
+		return s
+	}
+	return c.Pick(q, t)
+}
+
+const c01searchBudget = 75 * time.Second
+
+func c01gen(c *h.Ctx, yield0 func(*h.Case)) {
 	r := c.Rng
+	t0 := time.Now()
+	search := c01search()
+	// the five classes (schedules, send, inst, net, cluster) share the budget: class k may run until k/5 of it is used
+	// up; what a class leaves is the next one's
+	share := 1
+	yield := func(cs *h.Case) {
+		// yield blocks while the workers are busy, so the clock is read at the pace of the run
+		if search && (time.Since(t0) > c01searchBudget*time.Duration(share)/5 || c.TooManyFails()) {
+			c.Count("search-budget: case not run")
+			return
+		}
+		yield0(cs)
+	}
 	// corpus: the schedule that stranded a message before the repair, and a plain request/response round
 	yield(&h.Case{Class: "corpus-strand", Ops: []string{"c01 arrive 0 7", "c01 localset 0", "c01 flush 0", "c01 thread 0 7", "c01 thread 0 7"}})
 	yield(&h.Case{Class: "corpus-strand", Ops: []string{"c01 arrive 0 7", "c01 thread 0 7", "c01 thread 0 7", "c01 thread 0 7", "c01 thread 0 7", "c01 thread 0 7",
@@ -476,7 +513,7 @@ func c01gen(c *h.Ctx, yield func(*h.Case)) {
 		"c01 thread 0 1001", "c01 thread 0 1001", "c01 thread 0 2", "c01 thread 0 2", "c01 thread 0 2", "c01 respond 0", "c01 flush 0"}})
 	yield(&h.Case{Class: "corpus-round", Ops: []string{"c01 arrive 0 1", "c01 arrive 0 2", "c01 arrive 1 3", "c01 thread 0 1", "c01 thread 0 1", "c01 thread 0 1", "c01 thread 0 1", "c01 thread 0 1",
 		"c01 thread 0 2", "c01 thread 0 2", "c01 thread 0 2", "c01 respond 0", "c01 flush 0", "c01 arrive 0 4"}})
-	for n := 0; n < c.Pick(150, 3000); n++ {
+	for n := 0; n < c01pick(c, 150, 3000, 400); n++ {
 		cs := &h.Case{Class: "random"}
 		m := 0
 		var live []int
@@ -515,10 +552,14 @@ func c01gen(c *h.Ctx, yield func(*h.Case)) {
 		c.Count("class=random")
 		yield(cs)
 	}
+	share = 2
 	c01sendGen(c, yield)
+	share = 3
 	c01instGen(c, yield)
+	share = 4
 	c01netGen(c, yield)
-	for n := 0; n < c.Pick(12, 150); n++ {
+	share = 5
+	for n := 0; n < c01pick(c, 12, 150, 16); n++ {
 		tcp := 0
 		if n%3 == 2 {
 			tcp = 1
